@@ -25,7 +25,13 @@ def race_stage(pid, tier, seed, BUILD, GOENV, known):
     t0 = time.time()
     cmd = [binp, "race", "-seed", str(seed), "-workers", str(workers), "-rounds", str(rounds), "-objects", str(objects)]
     rc, out = _run(cmd, env, 1500 if tier == "quick" else 7200)
-    res = {"race_driver_s": round(time.time() - t0, 1), "race_cmd": " ".join(cmd), "violations": []}
+    # a second process without the sequential pass: first uses (lazy initialisation) race with each other
+    cold_cmd = [binp, "race", "-cold", "-seed", str(seed), "-workers", str(workers), "-objects", str(objects)]
+    rc2, out2 = _run(cold_cmd, env, 1500)
+    if "WARNING: DATA RACE" in out2 or "MISMATCH" in out2 or rc2 not in (0, 3, 66):
+        if "WARNING: DATA RACE" not in out and "MISMATCH" not in out:
+            cmd, rc, out = cold_cmd, rc2, out2
+    res = {"race_driver_s": round(time.time() - t0, 1), "race_cmd": " ".join(cmd), "cold_start_cmd": " ".join(cold_cmd), "violations": []}
     m = re.search(r"race ops=(\d+) calls=(\d+) mismatches=(\d+)", out)
     if m:
         res["evaluations"] = int(m.group(2))
